@@ -31,8 +31,13 @@ class DimensionRenamer(Transformer):
         self.sample_dims_before = sample_dims
         self.feature_dims_before = feature_dims
 
+        # Number the dimensions by their role, not by their position in the array:
+        # sample dimensions first (in the order given by the user), then the remaining
+        # dimensions. The layout of the input must not influence the new names.
+        ordered_dims = [dim for dim in sample_dims if dim in X.dims]
+        ordered_dims += [dim for dim in X.dims if dim not in ordered_dims]
         self.dim_mapping = {
-            dim: f"{self.base}{i}" for i, dim in enumerate(X.dims, start=self.start)
+            dim: f"{self.base}{i}" for i, dim in enumerate(ordered_dims, start=self.start)
         }
 
         self.sample_dims_after: Dims = tuple(
